@@ -12,7 +12,7 @@ Definition c06_spec (c : container) : list str := serde_wire_names c.
 Definition c06_oracle (c : container) (observed : list str) : bool := c06_ok c observed.
 Definition c06_in_domain (c : container) : bool := in_domain c.
 Definition c06_classes (dfc : str) (c : container) : list bool :=
-  (kf_skip_text c :: kf_skip_beside c :: kf_rename_escape c :: kf_rename_text c :: kf_config_case dfc c :: kf_sd_first c :: kf_rename_all_text c :: nil)%list.
+  (kf_skip_text c :: kf_skip_beside c :: kf_rename_escape c :: kf_rename_text c :: kf_config_case dfc c :: nil)%list.
 Definition c06_read_keys (n : str) (file : str) : option (list decl_obs) := read_keys n file.
 
 Extraction Language OCaml.
